@@ -10,10 +10,13 @@
    The monitor adopts the logged state, gasUsed and packaging decisions and demands what the property says, using
    the ledger semantics of LedgerOps (model-checked in Ledger.tla):
      C05  every balance = balance at the parent - fees paid as gas payer (gasUsed x gasPrice) - amounts sent by
-          packaged, successful transactions + amounts received (+ the block's fees for the income address);
-          the sum changes by issuance - burns only; gasUsed <= gasLimit; header gasUsed = sum; no negative balance;
+          packaged, successful transactions + amounts received (+ the block's fees for the income address; in a
+          reward block + the term reward shares and + / - the deferred deposit refunds);
+          the sum changes by issuance (the term reward actually divided) - burns only; the deposit pool keeps holding
+          exactly the recorded deposits; gasUsed <= gasLimit; header gasUsed = sum; no negative balance;
           a discarded transaction costs nothing.
-     C11  votes[c] = deposit votes + current voters' balance votes for registered candidates, else 0, never negative.
+     C11  votes[c] = deposit votes + current voters' balance votes for registered candidates, else 0, never negative
+          - at the end of EVERY block, reward blocks (reward issue, refunds, then the vote pass) included.
      C12  equity / supply move only as issuer issue / replenish, holder transfer / destroy of an owned non-negative
           amount while not frozen; supply = sum of equities; nothing negative.
    Check selects the clauses of the property under test.  Known defects are accepted only when listed (AllowedDev),
@@ -35,7 +38,8 @@ X(e, dv) == Block(c, dv, cur, e.txs)    \* every block of a behaviour is mined o
 Has(k) == k \in AllowedDev
 
 (* ---------------------------------------------------------------- C05 *)
-C05Common(e) == NonNegBal(e.post) /\ GasOK(e.txs, 1) /\ e.hgu = GasSum(e.txs, 1)
+C05Common(e) == /\ NonNegBal(e.post) /\ GasOK(e.txs, 1) /\ e.hgu = GasSum(e.txs, 1)
+                /\ PoolSurplus(c, e.post) = PoolSurplus(c, cur)     \* no scenario sends LEMO to the pool directly
 C05OK(e) == LET x == X(e, {}) IN
             /\ C05Common(e) /\ e.post.bal = x.s.bal
             /\ Total(e.post.bal) - Total(cur.bal) = x.rew - x.burn
@@ -51,17 +55,19 @@ C12With(e, x) == /\ e.post.eq = x.s.eq /\ e.post.sup = x.s.sup /\ e.post.frz = x
 C12OK(e) == C12With(e, X(e, {}))
 C12Dev(e) == LET k == "Dev_NegativeAssetTransfer" IN Has(k) /\ ~C12OK(e) /\ C12With(e, X(e, {k})) /\ UseDev(k)
 
-Judge(e) == /\ e.inexact = <<>>
+Judge(e) == /\ e.inexact = <<>> /\ e.post.h = cur.h + 1 /\ e.post.T = cur.T /\ e.post.I = cur.I
             /\ CASE Check = "C05" -> C05OK(e) \/ C05Dev(e)
                  [] Check = "C11" -> C11OK(e) \/ C11Dev(e)
                  [] Check = "C12" -> C12OK(e) \/ C12Dev(e)
 
 TReset == /\ Ev("reset") /\ E.inexact = <<>>
           /\ c' = [V |-> E.V, D |-> E.D, mindep |-> E.mindep, income |-> E.income, pool |-> E.pool, zero |-> E.zero,
-                   issuer |-> E.issuer, rev |-> ToSet(E.rev), sink |-> ToSet(E.sink), burn |-> ToSet(E.burn), back |-> ToSet(E.back)]
+                   issuer |-> E.issuer, rev |-> ToSet(E.rev), sink |-> ToSet(E.sink), burn |-> ToSet(E.burn), back |-> ToSet(E.back),
+                   deps |-> [k \in 1..Len(E.deps) |-> ToSet(E.deps[k])], payees |-> E.payees,
+                   prec |-> E.prec, rm |-> E.rm, rc |-> E.rc, rpool |-> E.rpool]
           /\ cur' = E.st /\ split' = FALSE
           /\ NonNegBal(E.st) /\ VotesOK(c', E.st) /\ SupplyOK(E.st)
-TxEvents == {"Transfer", "Vote", "Register", "TopUp", "Unregister", "Issue", "Replenish", "AssetTransfer", "Freeze", "Box"}
+TxEvents == {"Transfer", "Vote", "Register", "TopUp", "Unregister", "SetReward", "Issue", "Replenish", "AssetTransfer", "Freeze", "Box"}
 TTx == /\ \E n \in TxEvents : Ev(n)
        /\ Judge(E) /\ UNCHANGED <<c, cur, split>>
 \* Known defect, third face: a DISCARDED negative transfer to an account that does not hold the asset leaves a trace in
